@@ -6,9 +6,18 @@
    Discovery_Trace (code -> spec; also tells the waiter model whether an advertisement is valid).
 
    mDNS record:  [kind |-> "mdns", idc, kc, c, s, sf, ff, ci, addrs]
-       idc    "absent" | "lower" | "upper"      spelling of the id value (upper = upper/mixed case hex)
+       idc    "absent" | "lower" | "upper" | "noval" | "empty"
+              spelling of the id value (upper = upper/mixed case hex); noval = the TXT entry is the bare key `id`
+              without `=value` (zeroconf hands it to the library as None), empty = the entry `id=`
        kc     "lower" | "upper"                 spelling of the TXT keys
-       c, s, sf, ff, ci   ABSENT | BAD (not a number) | ODD (number-like: sign, blanks, ...) | n >= 0
+       c, s, sf, ff, ci   ABSENT | BAD (not a number) | EMPTY (entry `key=`, the empty string) |
+              NOVAL (bare key without `=value`, None) | ODD (number-like: sign, blanks, ...) | n >= 0
+       xk     (optional) one more TXT oddity that has no bearing on the outcome: "md-noval", "md-empty",
+              "pv-noval", "pv-empty", "uk-noval", "uk-empty", "uk-value" (uk = a key HomeKit does not define)
+   A bare key is "present without a value": the property leaves open whether that counts as absent (the
+   default is used) or as malformed (the record is ignored) - except for the id, without which there is no
+   device; an empty value is not a number, hence malformed; an empty id is no usable id: whether such a record
+   is ignored or kept under the empty id is not pinned here, it must merely not raise.
        addrs  sequence over {"v4","v6","ll4","ll6","un4","un6"}  (usable / link-local / unspecified), in the
               order the records were advertised
        av     address variety 0..9: which concrete texts stand for "v4" / "v6" in this record - IPv4 texts
@@ -26,6 +35,8 @@ EXTENDS Integers, Sequences, FiniteSets
 ABSENT == -1
 BAD == -2
 ODD == -3
+NOVAL == -4
+EMPTY == -5
 NumFields == {"c", "s", "sf", "ff", "ci"}
 AddrClasses == {"v4", "v6", "ll4", "ll6", "un4", "un6"}
 ValidAddr(a) == a \in {"v4", "v6"}
@@ -36,9 +47,10 @@ Count(seq, a) == Cardinality({i \in DOMAIN seq : seq[i] = a})
 
 Expect(r) ==
     IF r.kind = "mdns"
-    THEN IF r.idc = "absent" \/ (\E f \in NumFields : r[f] = BAD) \/ ~(\E a \in Range(r.addrs) : ValidAddr(a))
+    THEN IF r.idc \in {"absent", "noval"} \/ (\E f \in NumFields : r[f] \in {BAD, EMPTY})
+            \/ ~(\E a \in Range(r.addrs) : ValidAddr(a))
          THEN "ignored"
-         ELSE IF \E f \in NumFields : r[f] = ODD THEN "either" ELSE "discovery"
+         ELSE IF r.idc = "empty" \/ (\E f \in NumFields : r[f] \in {ODD, NOVAL}) THEN "either" ELSE "discovery"
     ELSE IF r.company # "apple" \/ r.type # "hap" \/ r.len < BLE_MIN THEN "ignored" ELSE "discovery"
 
 \* is the advertisement valid for the waiter model?  (a set: "either" leaves both open)
@@ -52,7 +64,7 @@ ObsOK(r, o) ==
     /\ Expect(r) = "ignored" => o.k = "ignored"
     /\ Expect(r) = "discovery" => o.k = "disc"
     /\ o.k = "disc" =>
-         /\ o.id = "lower"                                             \* ids are normalised to lower case
+         /\ (r.kind = "mdns" /\ r.idc = "empty") \/ o.id = "lower"      \* ids are normalised to lower case
          /\ \A f \in (IF r.kind = "mdns" THEN NumFields ELSE {"c", "s", "sf", "ci"}) : NumOK(r, o, f)
          /\ r.kind = "mdns" =>
               /\ \A a \in Range(o.addrs) : ValidAddr(a)                \* link-local / unspecified skipped
